@@ -60,11 +60,8 @@ func runHTTP(u ws.HTTPUpgrader, raw []byte, wsize int) (o outcome, ok bool) {
 	}
 	rec := tx.NewRec()
 	w := tx.NewHijackable(nil, rec, wsize)
-	_, rw, hs, err := u.Upgrade(r, w)
-	if rw != nil {
-		rw.Writer.Flush() // nothing may be left behind in the hijacked writer
-	}
-	out := rec.Bytes()
+	_, _, hs, err := u.Upgrade(r, w)
+	out := rec.Bytes() // only what reached the connection counts (the upgrader has to flush)
 	if w.Status != 0 || w.Body.Len() > 0 {
 		// not hijacked: the answer went through the ResponseWriter
 		out = append(out, []byte(fmt.Sprintf("<<ResponseWriter status=%d body=%q>>", w.Status, w.Body.Bytes()))...)
